@@ -480,7 +480,10 @@ def final_functions(src, structs, what):
         if "_Final" in n and n not in names:
             names.append(n)
     fns = []
-    for n in names:
+    i = 0
+    while i < len(names):       # a work list: helpers of this file that are handed a context are read too
+        n = names[i]
+        i += 1
         try:
             params, body = func_def(src, n)
         except NotFound:
@@ -488,8 +491,32 @@ def final_functions(src, structs, what):
         # only functions that take one of the hash contexts
         if not any(re.search(r"\b%s\b" % re.escape(sn), params) for sn, _ in structs):
             continue
-        rd = FinalReader(n, params, body, structs)
-        fns.append((n, rd.ctx, rd.read()))
+        if "_Final" in n:
+            rd = FinalReader(n, params, body, structs)
+            stmts = rd.read()
+        else:
+            # a helper: read it if it can be read; one that cannot be read stays an unknown callee (the
+            # interpreter then forgets what it knew about the arguments - sound) unless it takes part
+            # in the wiping, in which case nothing true can be emitted without reading it
+            try:
+                rd = FinalReader(n, params, body, structs)
+                stmts = rd.read()
+            except NotFound:
+                if "insecure_memzero" in strip_comments(body):
+                    raise
+                continue
+        fns.append((n, rd.ctx, stmts))
+        # a function of this file that a *_Final* function calls with the context (say a static
+        # SHA256_Clear(ctx) wrapping the wipe) is part of what Final does: it is read like Final itself
+        # (or, if it cannot be read, the module refuses) - the interpreter can only descend into
+        # functions it is given, an unknown callee makes it forget what it knew
+        for stt in stmts:
+            if stt[0] == 0 and stt[1] not in names and any(a[0] in (0, 1) for a in stt[2]):
+                try:
+                    func_def(src, stt[1])
+                except NotFound:
+                    continue
+                names.append(stt[1])
     if not fns:
         raise NotFound(what + ": no *_Final* function definitions")
     return fns
